@@ -52,6 +52,7 @@ const (
 	DevBanner  = "banner"   // IOS reload banner (see BannerSpec)
 	DevWarnErr = "warn+error" // ASA: the benign warning this command class can produce, followed by the error text
 	DevInfoErr = "info+error" // ASA: an INFO: line followed by the error text
+	DevBadConf = "bad-config" // the configuration the device prints holds a (legal) construct the tool's parser rejects
 )
 
 type BannerSpec struct {
@@ -367,7 +368,11 @@ func (s *SSH) asaLine(l, class, dev string) {
 	case l == "write term":
 		s.rec(l, class, dev, dev == "")
 		s.afterWriteTerm = true
-		s.answer(l, ifDev(dev, s.errText(), ": Saved\n:\n"+s.Cisco.Print()+": end"))
+		bad := ""
+		if dev == DevBadConf {
+			bad = "access-group NOPE-ACL in interface " + "inside" + "\n"
+		}
+		s.answer(l, ifDev(dev, s.errText(), ": Saved\n:\n"+s.Cisco.Print()+bad+": end"))
 	case l == "configure terminal":
 		s.rec(l, class, dev, dev == "")
 		if dev == DevError {
@@ -554,7 +559,11 @@ func (s *SSH) iosLine(l, class, dev string) {
 		s.iosAnswer(l, ifDev(dev, s.errText(), "Cisco IOS Software, C2900 Software, Version 15.1(4)M4"))
 	case l == "sh run":
 		s.rec(l, class, dev, dev == "")
-		s.iosAnswer(l, ifDev(dev, s.errText(), "Building configuration...\n\nCurrent configuration : 1234 bytes\n!\n"+s.Cisco.Print()+"end"))
+		bad := ""
+		if dev == DevBadConf {
+			bad = "interface Ethernet99\n crypto map NOPE-MAP\n"
+		}
+		s.iosAnswer(l, ifDev(dev, s.errText(), "Building configuration...\n\nCurrent configuration : 1234 bytes\n!\n"+s.Cisco.Print()+bad+"end"))
 	case l == "configure terminal":
 		s.rec(l, class, dev, dev == "")
 		if dev == DevError {
@@ -710,6 +719,10 @@ func (s *SSH) linuxLine(l, class, dev string) {
 		}
 		ok(b.String())
 	case l == "iptables-save":
+		if dev == DevBadConf {
+			ok(s.Linux.PrintRules(true) + "*broken\n-X foo\nCOMMIT\n")
+			return
+		}
 		ok(s.Linux.PrintRules(true))
 	case l == "which iptables-restore":
 		ok("/sbin/iptables-restore")
